@@ -21,6 +21,8 @@ CONSTANTS
   SysDomSet = {TRUE}
   NoRedSet = {FALSE}
   NoObfSets = {{}}
+  WidthSet = {FALSE}
+  AllowSet = {0}
   FamSet = {"plain", "prefix"}
   AllowBlank = FALSE
   Runs = 1
